@@ -168,7 +168,7 @@ func (c *Cluster) propose(t structs.MessageType, buf []byte) (any, error) {
 		c.curOut.Appended = append(c.curOut.Appended, idx)
 		c.curOut.Resp = resp
 	}
-	if !strings.HasPrefix(desc, "ae:") { // the agent walks its tables in map order: C16 logs its calls per sync, sorted
+	if !strings.HasPrefix(desc, "ae:") && !strings.HasPrefix(desc, "import:") { // the agent walks its tables in map order: C16 logs its calls per sync, sorted
 		c.Run.Eventf("commit %d type=%d %s -> %s", idx, t, desc, simkit.Trunc(c.Results[idx], 200))
 	}
 	if c.OnCommit != nil {
